@@ -1124,6 +1124,37 @@ func c06Bits(c *Ctx, p *Prog) {
 					}
 					bindLoads(fn, env, n, x)
 					evalIntPrepare = func(f *ssa.Function, e map[ssa.Value]int64) { bindLoads(f, e, n, x) }
+					// other counters of the loop that move by a constant per word (bits still to come: rem -= 32): their
+					// value in iteration i is start + i*step
+					for _, in := range lp.Header.Instrs {
+						phi, ok := in.(*ssa.Phi)
+						if !ok || phi == idxPhi || !isInteger(phi.Type()) {
+							continue
+						}
+						var init ssa.Value
+						step, haveStep := int64(0), false
+						for j, e := range phi.Edges {
+							if !lp.Blocks[lp.Header.Preds[j]] {
+								init = e
+								continue
+							}
+							if bo, ok := e.(*ssa.BinOp); ok && bo.X == ssa.Value(phi) {
+								if k, ok := constInt(bo.Y); ok {
+									switch bo.Op {
+									case token.ADD:
+										step, haveStep = k, true
+									case token.SUB:
+										step, haveStep = -k, true
+									}
+								}
+							}
+						}
+						if init != nil && haveStep {
+							if v0, ok := evalInt(init, env); ok {
+								env[phi] = v0 + i*step
+							}
+						}
+					}
 					outcome := "stuck"
 					b := start
 					for steps := 0; steps < 16; steps++ {
